@@ -28,6 +28,7 @@ RULE = (
     'a mixed-key dict, or a default made explicit.'
 )
 RULE += (' ' + 'Also generated: kw-only parameters with defaults; the breaking rewrite alias_retarget (a later reference re-pointed at another already-visited object) and a nested-alias scenario.')
+RULE += (' ' + 'Rounds 3-5: shared set nodes; breaking rewrite nt_to_tuple; **kwargs callables; nodes over a callable with a mutable default.')
 ASSUMPTIONS = [
     'NaN leaves excluded (property excludes them)',
     'alias rewrites touch only non-internable objects; == deliberately ignores sharing of internables',
